@@ -112,7 +112,7 @@ def scripts_for(ctx, quick):
     if not quick:
         S += g("g5.cfg", maxrecs=3, names=tset([2, 3, 4]), kinds=tset(["A", "NS"]), edns=tset(["do"]))
     # G6: long random messages over the whole universe
-    n = 300 if quick else 15000
+    n = 300 if quick else 8000
     S += ctx.generate("Gen_Renderer", gen_cfg(
         ctx, "g6.cfg", opcodes=tset([0, 4, 5]), maxrecs=6, names=tset([1, 2, 3, 4, 5, 6]), targets=tset([2, 3, 4, 5]),
         kinds=tset(["A", "NS", "RRSIG", "SOA", "SRV", "TXT"]), edns=tset(["off", "v0", "do", "opts", "v1"]),
@@ -176,7 +176,7 @@ def selftest(ctx):
     rr = lambda sec, name, kind, n1: {"op": "rr", "sec": sec, "name": name, "kind": kind, "n1": n1, "n2": [], "k": 1,
                                       "nrd": 1, "ttl": [0, 300], "form": "plain"}
     script = [{"op": "hdr", "id": 4660, "opcode": 0, "bits": 256, "rcode": 2561, "origin": False,
-               "edns": ["edns", 0, 32768, 1232, [[10, 8, 7]]]},
+               "edns": ["edns", 0, 32768, 1232, [[10, 8, 7]]], "pad": 0, "zcls": 1, "max": 65535},
               {"op": "q", "name": [[97], ex], "type": 1, "cls": 1},
               rr(1, [[65], [69, 88]], "NS", [[98], [97], ex]), rr(3, [[98], [97], ex], "A", []), {"op": "end"}]
     good = c03_message.run_job(("good", script, "direct"))
